@@ -222,6 +222,9 @@ func checkC16Parse(c c16ParseCase) verdict {
 			}
 			return ""
 		}
+		// blanks around the digits (a '+' in a query decodes to a blank) do not change which number is written: such a
+		// URL may be refused or read as that number
+		text = strings.Trim(text, " \t")
 		if !intRe.MatchString(text) {
 			return fmt.Sprintf("%s=%q is not a number but the URL was accepted (value %d)", name, text, val)
 		}
@@ -241,7 +244,7 @@ func checkC16Parse(c c16ParseCase) verdict {
 }
 
 var c16Parse = newPart("C16", "parse-numbers",
-	"rapid: hand-written otpauth URLs with type in any letter case and digits / period parameter text from {absent, boundary integers around 0, 255, 256, 2^31, 2^32, 2^63, 2^64 with either sign, leading zeros, '+' sign, random integers in -2^63..2^63, non-numeric text (6x, 0x10, 1e3, six, ' 6', '6 ', 6.0, empty-looking)}; oracle: the call fails, or digits and period equal the written numbers exactly (digits within 0..255, period >= 0), absent => 6 / 30; every case non-trivial",
+	"rapid: hand-written otpauth URLs with type in any letter case and digits / period parameter text from {absent, boundary integers around 0, 255, 256, 2^31, 2^32, 2^63, 2^64 with either sign, leading zeros, '+' sign, random integers in -2^63..2^63, non-numeric text (6x, 0x10, 1e3, six, ' 6', '6 ', 6.0, empty-looking)}; oracle: the call fails, or digits and period equal the written numbers exactly (digits within 0..255, period >= 0; blanks around the digits do not change the number written), absent => 6 / 30; other non-numeric text must be refused; every case non-trivial",
 	checkC16Parse)
 
 var numTexts = []string{"", "0", "1", "6", "8", "10", "255", "256", "257", "262", "511", "512", "65536", "-1", "-6", "-250", "-256", "2147483647", "2147483648", "4294967295", "4294967296", "4294967302",
